@@ -16,6 +16,8 @@ impl<'a, M: EntityMatcher> Extractor<'a, M> {
         let mut fragment = Fragment::default();
         for rule in &self.rules {
             if let Some(updated) = rule.extract(fragment.clone(), entity) {
+                #[cfg(feature = "verif")]
+                okane_core::verif::emit("extract.rule", || format!("{:?}", updated));
                 fragment += updated;
             }
         }
